@@ -206,6 +206,10 @@ func reqKinds(bases ...string) []string {
 	return out
 }
 
+// round 4b: "<T>:2p" = the parent object of the nested path of slot 2 (dims.vol) is null in the
+// representation (`"dims": null`): dims.vol and dims.wt are both unavailable
+var parentNullKinds = []string{"P:2p", "Pm:2p"}
+
 // splitKind("Rm3:2n") = ("Rm3", 2, "n"); ("S", 0, "") for kinds without a modifier
 func splitKind(k string) (string, int, string) {
 	if i := strings.Index(k, ":"); i > 0 && len(k) == i+3 {
@@ -224,9 +228,10 @@ func modelConfigs(thorough bool) []mcfg {
 			{"rq1", reqKinds("R", "Rm", "R2", "Rm2", "R3", "Rm3"), 1, 1, false},
 			{"rq2", append(reqKinds("R2"), "Rm2", "Rm2:1b", "Rm2:2n", "Rm2:2a"), 2, 1, false},
 			{"rq3", []string{"R3:1b", "Rm3", "Rm3:2b", "Rm3:3a"}, 3, 1, false},
-			{"rp1", reqKinds("P", "Pm"), 1, 1, false},
-			{"rp2", []string{"P", "P:2n", "P:3b", "Pm", "Pm:1b", "Pm:2a", "Pm:4n"}, 2, 1, false},
+			{"rp1", append(reqKinds("P", "Pm"), parentNullKinds...), 1, 1, false},
+			{"rp2", []string{"P", "P:2n", "P:3b", "P:2p", "Pm", "Pm:1b", "Pm:2a", "Pm:4n"}, 2, 1, false},
 			{"rp3", []string{"Pm", "Pm:3a", "Pm:2n"}, 3, 1, false},
+			{"rp4", []string{"Pm", "Pm:2p"}, 3, 1, false},
 			{"ck1", compositeKinds, 1, 1, false},
 			{"ck2", []string{"C:vn", "Cm:vn", "Cm:nv", "Cm:nn", "Cm", "K2:cn", "N2:vn"}, 2, 1, false},
 			{"bk", []string{"S:kb", "Mid", "Mid:kb", "C:vb", "Cm", "Cm:vb", "Cm:bv"}, 2, 1, false},
@@ -246,7 +251,8 @@ func modelConfigs(thorough bool) []mcfg {
 		{"rq2", reqKinds("R2", "Rm2"), 2, 1, false},
 		{"rq2b", append(reqKinds("R3"), "Rm3", "Rm3:1b", "Rm3:2b", "Rm3:2n", "Rm3:3b", "Rm", "Rm:1b"), 2, 1, false},
 		{"rq3", []string{"R3:1b", "Rm3", "Rm3:1b", "Rm3:2n", "Rm3:3b"}, 3, 1, false},
-		{"rp1", reqKinds("P", "Pm"), 1, 1, false},
+		{"rp1", append(reqKinds("P", "Pm"), parentNullKinds...), 1, 1, false},
+		{"rp4", []string{"P", "P:2p", "Pm", "Pm:2p", "Pm:3a"}, 3, 1, false},
 		{"rp2", append(reqKinds("P"), "Pm", "Pm:1b", "Pm:2n", "Pm:2a", "Pm:3a", "Pm:4b"), 2, 1, false},
 		{"rp3", []string{"P", "P:2a", "Pm", "Pm:1b", "Pm:3a", "Pm:4n"}, 3, 1, false},
 		{"ck1", compositeKinds, 1, 1, false},
@@ -373,6 +379,10 @@ type emitted struct {
 func (e *emitted) inlineSensitive() bool {
 	for i, o := range e.Out {
 		if o == "nil" && ((strings.HasPrefix(e.Reps[i], "R") && !strings.HasPrefix(e.Reps[i], "Rm")) || (strings.HasPrefix(e.Reps[i], "P") && !strings.HasPrefix(e.Reps[i], "Pm"))) {
+			return true
+		}
+		// round 4b: a null parent of a nested path is a recovered panic only in the inline code
+		if e.Reps[i] == "P:2p" && o == "ent" {
 			return true
 		}
 	}
@@ -544,6 +554,12 @@ func concretise(k string, i int, rnd *rand.Rand) map[string]any {
 	if base, j, st := splitKind(k); reqFields[base] != nil {
 		// well-formed required values name the index: w "w<i>", n 1000+i, l ["l<i>"]
 		m = map[string]any{"__typename": base, "id": id}
+		nullParent := ""
+		defer func() {
+			if nullParent != "" {
+				m[nullParent] = nil
+			}
+		}()
 		for fi, f := range reqFields[base] {
 			var good, bad any
 			if strings.HasPrefix(base, "P") {
@@ -567,6 +583,10 @@ func concretise(k string, i int, rnd *rand.Rand) map[string]any {
 					tgt[leaf] = bad
 				case st == "n":
 					tgt[leaf] = nil
+				case st == "p" && strings.Contains(f, "."):
+					// round 4b: the PARENT object of the nested path is null (`"dims": null`); set
+					// after the loop, so the sibling paths under it are unavailable as well
+					nullParent = f[:strings.Index(f, ".")]
 				}
 				continue
 			}
@@ -1545,6 +1565,9 @@ func main() {
 						missing = append(missing, base+"|"+pth+"|"+st)
 					}
 				}
+				if strings.HasPrefix(pth, "dims.") && slotCount[base+"|"+pth+"|parent-null"] == 0 {
+					missing = append(missing, base+"|"+pth+"|parent-null")
+				}
 			}
 		}
 		shapeMu.Unlock()
@@ -1874,6 +1897,16 @@ func evaluate(c *vlib.Check, j *job, bin string, drift *int) bool {
 	shapeMu.Lock()
 	for _, k := range e.Reps {
 		if base, sl, st := splitKind(k); strings.HasPrefix(base, "P") && sl > 0 {
+			if st == "p" {
+				// the null parent makes every path under it unavailable: counted for each of them
+				par := pPaths[sl-1][:strings.Index(pPaths[sl-1], ".")+1]
+				for _, pth := range pPaths {
+					if strings.HasPrefix(pth, par) {
+						slotCount[fmt.Sprintf("%s|%s|parent-null", base, pth)]++
+					}
+				}
+				continue
+			}
 			slotCount[fmt.Sprintf("%s|%s|%s", base, pPaths[sl-1], map[string]string{"b": "wrong-type", "n": "null", "a": "absent"}[st])]++
 		}
 	}
